@@ -28,11 +28,11 @@ Qed.
 (* a LoadRange that never fails never makes the loop give up *)
 Lemma never_fails_not_failed {V C} (cb : C -> Z * V -> C * list Z) min_limit :
   forall fuel m next limit call c acc,
-    fst (fst (fst (page_loop never_fails cb min_limit fuel m next limit call c acc))) <> RFailed.
+    fst (fst (fst (page_loop never_fails cb no_rw min_limit fuel m next limit call c acc))) <> RFailed.
 Proof.
   induction fuel as [|fuel IH]; intros m next limit call c acc; cbn [page_loop]; [discriminate|].
   unfold never_fails at 1.
-  destruct (fold_left (step_item cb) (range m next range_end limit) (m, c, next)) as [[m' c'] next'].
+  destruct (fold_left (step_item cb no_rw) (range m next range_end limit) (m, c, next)) as [[m' c'] next'].
   destruct ((Z.of_nat (length (range m next range_end limit)) <? limit) || (next' =? 0)); [discriminate|apply IH].
 Qed.
 
@@ -65,7 +65,7 @@ Proof.
                 (fuel_enough m 0 store_limit)) as P.
   cbv zeta in P.
   pose proof (never_fails_not_failed no_cb store_limit (fuel_for m store_limit) m 0 store_limit O tt []) as NF.
-  destruct (page_loop never_fails no_cb store_limit (fuel_for m store_limit) m 0 store_limit O tt []) as [[[st acc] m'] c'].
+  destruct (page_loop never_fails no_cb no_rw store_limit (fuel_for m store_limit) m 0 store_limit O tt []) as [[[st acc] m'] c'].
   cbn [fst snd] in P, NF. destruct P as (P1 & P2 & _).
   destruct st; try contradiction. destruct (P2 eq_refl) as [A _]. cbn [app] in A.
   rewrite A, todo_from_zero by exact Hs. reflexivity.
@@ -101,7 +101,7 @@ Section Chain.
     0 <= floor ->
     (forall call page, Z.of_nat (length page) <= floor -> fails call page = false) ->
     forall fuel m next limit call c acc, Chain limit ->
-      fst (fst (fst (page_loop fails cb min_limit fuel m next limit call c acc))) <> RFailed.
+      fst (fst (fst (page_loop fails cb no_rw min_limit fuel m next limit call c acc))) <> RFailed.
   Proof.
     intros Hfl Hsmall. induction fuel as [|fuel IH]; intros m next limit call c acc Hc; cbn [page_loop]; [discriminate|].
     destruct (fails call (range m next range_end limit)) eqn:Ef.
@@ -110,7 +110,7 @@ Section Chain.
         exfalso. rewrite Hsmall in Ef; [discriminate|].
         unfold range. rewrite firstn_length. lia.
       + rewrite (proj2 (Z.leb_le _ _) Hmin). apply IH. exact Hc.
-    - destruct (fold_left (step_item cb) (range m next range_end limit) (m, c, next)) as [[m' c'] next'].
+    - destruct (fold_left (step_item cb no_rw) (range m next range_end limit) (m, c, next)) as [[m' c'] next'].
       destruct ((Z.of_nat (length (range m next range_end limit)) <? limit) || (next' =? 0)); [discriminate|apply IH; exact Hc].
   Qed.
 End Chain.
@@ -218,6 +218,51 @@ Proof.
   - apply inv_set_regions; [exact I|]. apply del_sorted. assumption.
 Qed.
 
+(* the loop keeps the namespace id-sorted and non-negative for ANY callback and rewrite hook (needed where the callback
+   is not known to delete only behind the scan: loads over a warm cache) *)
+Lemma fold_step_sorted0 {V C} (cb : C -> Z * V -> C * list Z) (rw : C -> Z * V -> option V) :
+  forall (p : amap V) m c nx, (forall k v, In (k, v) p -> 0 <= k) -> sorted_from 0 m ->
+    sorted_from 0 (fst (fst (fold_left (step_item cb rw) p (m, c, nx)))).
+Proof.
+  induction p as [|[k v] p IH]; intros m c nx Hp Hs; cbn [fold_left]; [exact Hs|].
+  unfold step_item at 2. destruct (cb c (k, v)) as [c' dels]. cbn [fst].
+  apply IH; [intros k' v' H; apply (Hp k' v'); right; exact H|].
+  destruct (rw c (k, v)); [apply put_sorted0; [apply dels_sorted; exact Hs|apply (Hp k v); left; reflexivity]|apply dels_sorted; exact Hs].
+Qed.
+
+Lemma fold_step_next_nonneg {V C} (cb : C -> Z * V -> C * list Z) (rw : C -> Z * V -> option V) :
+  forall (p : amap V) m c nx, 0 <= nx -> 0 <= snd (fold_left (step_item cb rw) p (m, c, nx)).
+Proof.
+  induction p as [|[k v] p IH]; intros m c nx Hn; cbn [fold_left]; [exact Hn|].
+  unfold step_item at 2. destruct (cb c (k, v)) as [c' dels]. apply IH.
+  unfold next_id. apply Z.mod_pos_bound. reflexivity.
+Qed.
+
+Lemma range_keys_nonneg {V} (m : amap V) next limit k v : 0 <= next -> In (k, v) (range m next range_end limit) -> 0 <= k.
+Proof.
+  intros Hn Hin. unfold range in Hin.
+  assert (In (k, v) (filter (in_range next range_end) m)).
+  { clear - Hin. revert Hin. generalize (Z.to_nat limit) as n. generalize (filter (in_range next range_end) m) as l.
+    induction l as [|x l IH]; intros [|n] H; cbn [firstn] in H; try contradiction.
+    destruct H as [->|H]; [left; reflexivity|right; apply (IH n); exact H]. }
+  apply filter_In in H as [_ H]. unfold in_range in H. cbn [fst] in H. lia.
+Qed.
+
+Lemma page_loop_sorted0 {V C} fails (cb : C -> Z * V -> C * list Z) (rw : C -> Z * V -> option V) min_limit :
+  forall fuel m next limit call c acc, sorted_from 0 m -> 0 <= next ->
+    sorted_from 0 (snd (fst (page_loop fails cb rw min_limit fuel m next limit call c acc))).
+Proof.
+  induction fuel as [|fuel IH]; intros m next limit call c acc Hs Hn; cbn [page_loop]; [exact Hs|].
+  destruct (fails call (range m next range_end limit)).
+  - destruct (min_limit <=? limit / 2); [apply IH; assumption|exact Hs].
+  - pose proof (fold_step_sorted0 cb rw (range m next range_end limit) m c next
+                  (fun k v H => range_keys_nonneg m next limit k v Hn H) Hs) as S.
+    pose proof (fold_step_next_nonneg cb rw (range m next range_end limit) m c next Hn) as N.
+    destruct (fold_left (step_item cb rw) (range m next range_end limit) (m, c, next)) as [[m' c'] next'].
+    cbn [fst snd] in S, N.
+    destruct ((Z.of_nat (length (range m next range_end limit)) <? limit) || (next' =? 0)); [exact S|apply IH; assumption].
+Qed.
+
 Lemma inv_load_once s : SInv s -> SInv (fst (load_once s)).
 Proof.
   intros I. unfold load_once.
@@ -274,6 +319,11 @@ Proof.
     pose proof (inv_load_into_cache s I) as IC. destruct (load_into_cache s) as [s' b]. cbn [fst] in IC.
     destruct b as [| | |st l c a| | |]; try exact IC. destruct st; try exact IC.
     destruct (use_rs s'); [|exact IC]. destruct IC as [C1 C2 C3 C4 C5 C6]. constructor; cbn; assumption.
+  - assert (Hs : sorted_from 0 (regions_of s (use_rs s))) by (unfold regions_of; destruct (use_rs s); assumption).
+    pose proof (page_loop_sorted0 (faults_of s (use_rs s)) put_loaded rw_loaded region_limit_min
+                  (fuel_for (regions_of s (use_rs s)) region_limit0) (regions_of s (use_rs s)) 0 region_limit0 O cached [] Hs ltac:(lia)) as P.
+    destruct (page_loop _ _ _ _ _ _ _ _ _ _ _) as [[[st acc] m'] c']. cbn [fst snd] in *.
+    apply inv_set_regions; assumption.
   - destruct (lookup (regions_of s (use_rs s)) bad); [|apply inv_load_once; exact I].
     destruct (use_rs s && loaded_once s); exact I.
 Qed.
@@ -366,6 +416,7 @@ Proof.
   - destruct (use_rs s && loaded_once s); [reflexivity|].
     pose proof (load_into_cache_frame s) as F. destruct (load_into_cache s) as [s' b]. cbn [fst] in *.
     destruct b as [| | |st l c a| | |]; try exact F. destruct st; try exact F. destruct (use_rs s'); exact F.
+  - destruct (page_loop _ _ _ _ _ _ _ _ _ _ _) as [[[st acc] m'] c']. cbn [fst]. apply set_regions_frame.
   - destruct (lookup (regions_of s (use_rs s)) bad); [|apply load_once_frame]. destruct (use_rs s && loaded_once s); reflexivity.
 Qed.
 
@@ -433,17 +484,17 @@ Proof.
   Qed.
 
 (* ---------- regions, direct backend (Storage.Base) ---------- *)
-Lemma no_cb_fold {V} (p : amap V) : forall m nx, fst (fold_left (step_item no_cb) p (m, tt, nx)) = (m, tt).
+Lemma no_cb_fold {V} (p : amap V) : forall m nx, fst (fold_left (step_item no_cb no_rw) p (m, tt, nx)) = (m, tt).
 Proof. induction p as [|it p IH]; intros m nx; cbn [fold_left]; [reflexivity|]. rewrite step_item_eq. cbn. apply IH. Qed.
 
 Lemma no_cb_keeps_map {V} (fails : nat -> amap V -> bool) min_limit : forall fuel m next limit call acc,
-  snd (fst (page_loop fails no_cb min_limit fuel m next limit call tt acc)) = m.
+  snd (fst (page_loop fails no_cb no_rw min_limit fuel m next limit call tt acc)) = m.
 Proof.
   induction fuel as [|fuel IH]; intros m next limit call acc; cbn [page_loop]; [reflexivity|].
   destruct (fails call (range m next range_end limit)).
   - destruct (min_limit <=? limit / 2); [apply IH|reflexivity].
   - pose proof (no_cb_fold (range m next range_end limit) m next) as F.
-    destruct (fold_left (step_item no_cb) (range m next range_end limit) (m, tt, next)) as [[m' c'] next'].
+    destruct (fold_left (step_item no_cb no_rw) (range m next range_end limit) (m, tt, next)) as [[m' c'] next'].
     cbn [fst] in F. inversion F; subst m' c'.
     destruct ((Z.of_nat (length (range m next range_end limit)) <? limit) || (next' =? 0)); [reflexivity|apply IH].
 Qed.
@@ -456,7 +507,7 @@ Proof.
   unfold collect_regions, load_regions.
   pose proof (no_cb_keeps_map (faults_of s (use_rs s)) region_limit_min (fuel_for (regions_of s (use_rs s)) region_limit0)
                 (regions_of s (use_rs s)) 0 region_limit0 O []) as K.
-  destruct (page_loop _ _ _ _ _ _ _ _ _ _) as [[[st acc] m'] c']. cbn [fst snd] in K. subst m'.
+  destruct (page_loop _ _ _ _ _ _ _ _ _ _ _) as [[[st acc] m'] c']. cbn [fst snd] in K. subst m'.
   unfold set_regions, regions_of. destruct (use_rs s); cbn; auto.
 Qed.
 
@@ -474,7 +525,7 @@ Definition no_rwant : Z -> option rv := fun _ => None.
 (* histories without backend switches, crashes and pruning loads; the timed flush may fire anywhere, writes of the
    store namespaces may fail *)
 Definition plain_op (o : op) : bool :=
-  match o with OSwitch _ | OCrash | OLoadIntoCache | OSaveRegionF _ _ _ | ODeleteRegionF _ _ | OCrashInFlush _ | OLoadOnceCorrupt _ | OLoadOnceIntoCache => false | _ => true end.
+  match o with OSwitch _ | OCrash | OLoadIntoCache | OSaveRegionF _ _ _ | ODeleteRegionF _ _ | OCrashInFlush _ | OLoadOnceCorrupt _ | OLoadOnceIntoCache | OLoadWarm _ => false | _ => true end.
 Definition plain_ops (ops : list op) : bool := forallb plain_op ops.
 (* the direct backend also admits failing region writes *)
 Definition direct_op (o : op) : bool :=
@@ -540,7 +591,7 @@ Proof.
   pose proof (load_regions_collect_spec (over_budget (budget s)) (base_r s) (i_base s I)) as P. cbv zeta in P.
   pose proof (small_pages_never_give_up region_limit_min 156 (over_budget (budget s)) (@no_cb rv) ltac:(lia)) as G.
   unfold load_regions in *.
-  destruct (page_loop (over_budget (budget s)) no_cb region_limit_min (fuel_for (base_r s) region_limit0)
+  destruct (page_loop (over_budget (budget s)) no_cb no_rw region_limit_min (fuel_for (base_r s) region_limit0)
                       (base_r s) 0 region_limit0 O tt []) as [[[st acc] m'] c'] eqn:E. cbn [fst snd] in *.
   destruct P as (P1 & P2 & _). split.
   - exists st, acc. split; [reflexivity|]. split; [exact P1|]. intros Hd. exact (proj1 (P2 Hd)).
@@ -802,3 +853,31 @@ Proof.
     destruct b as [| |[] l| | | |]; cbn [fst use_rs]; rewrite ?C5; exact Hrs. }
   rewrite Hrs', O2. reflexivity.
 Qed.
+
+(* ---------- loading over a warm cache: the record of a served region is brought up to date, never deleted ---------- *)
+Lemma put_loaded_cold c r : find_id c (fst r) = None -> put_loaded c r = check_and_put c r /\ rw_loaded c r = None.
+Proof.
+  intros H. unfold put_loaded, rw_loaded, check_and_put. rewrite H. destruct (accepts c r); split; reflexivity.
+Qed.
+Lemma put_loaded_accepted c r : accepts c r = true -> put_loaded c r = check_and_put c r /\ rw_loaded c r = None.
+Proof. intros H. unfold put_loaded, rw_loaded. rewrite H. split; reflexivity. Qed.
+
+(* the step of the load for a record that the cache rejects while it holds a region of the same id *)
+Theorem stale_record_is_rewritten_pf (m : amap rv) (c : cache) k v v' nx :
+  sorted_from 0 m -> accepts c (k, v) = false -> find_id c k = Some v' ->
+  let r := step_item put_loaded rw_loaded (m, c, nx) (k, v) in
+  snd (fst r) = c /\ lookup (fst (fst r)) k = Some v' /\ forall j, j <> k -> lookup (fst (fst r)) j = lookup m j.
+Proof.
+  intros Hs Ha Hf r. subst r. unfold step_item, put_loaded, rw_loaded. cbn [fst]. rewrite Ha, Hf. cbn [fold_left fst snd].
+  split; [reflexivity|]. split.
+  - rewrite (lookup_put 0) by exact Hs. rewrite Z.eqb_refl. reflexivity.
+  - intros j Hj. rewrite (lookup_put 0) by exact Hs. replace (j =? k) with false by (symmetry; lia). reflexivity.
+Qed.
+
+(* the audit's history in the model: region 1 is cached with conf_ver 6 (its save failed), the record has conf_ver 5; the
+   member is elected again and reloads over its warm cache: the record is rewritten, storage and cache agree *)
+Lemma reelected_leader_example :
+  let r1 := RV 0 100 5 5 30 in let r1' := RV 0 100 6 5 30 in let r2 := RV 100 0 5 5 30 in
+  let ops := [OSaveRegion 1 r1; OSaveRegion 2 r2; OSaveRegionF 1 r1' false; OLoadWarm [(1, r1'); (2, r2)]] in
+  last (run run_op sinit ops) BUnit = BCache RDone [(1, r1); (2, r2)] [(1, r1'); (2, r2)] [(1, r1'); (2, r2)].
+Proof. vm_compute. reflexivity. Qed.
